@@ -822,7 +822,10 @@ def gen_c10(seed, tier):
         if sign and r.chance(0.6):
             kw["sigalg"] = r.pick(SIGALGS)
             kw["digalg"] = r.pick(DIGALGS)
-        kindmsg = r.weighted([("authn_request", 6), ("logout_request", 3), ("attribute_query", 2), ("logout_idp2sp", 2)])
+        kindmsg = r.weighted([("authn_request", 6), ("logout_request", 3), ("attribute_query", 2), ("logout_idp2sp", 2),
+                              ("manage_name_id_request", 1), ("name_id_mapping_request", 1), ("authn_query", 1)])
+        # (AuthzDecisionQuery is not sent: the fork has no SOAP unwrapper for it, Entity.unravel fails with
+        # UnravelError for every such message - DESIGN.md section 15)
         if kindmsg == "authn_request":
             g.ev("start", f=f, sp=sp["name"], idp=idp["name"], rb=rb, sign=sign, **kw)
         elif kindmsg == "logout_idp2sp":
@@ -864,7 +867,7 @@ def gen_c10(seed, tier):
             g.tick()
             continue
         else:
-            rb = "soap" if kindmsg == "attribute_query" else r.pick(["soap", "post", "redirect"])
+            rb = r.pick(["soap", "post", "redirect"]) if kindmsg == "logout_request" else "soap"
             g.ev("mkreq", f=f, sp=sp["name"], idp=idp["name"], kind=kindmsg, rb=rb, sign=bool(sign), **kw)
         g.tick()
         if clean:
@@ -902,7 +905,7 @@ def gen_c10(seed, tier):
                 others = [b for b in ("soap", "post", "redirect") if b != rb]
                 g.ev("req", f=f, via=r.pick(["slo_" + r.pick(others)] + (["sso_" + rb] if rb != "soap" else ["aa_soap"])))
             else:
-                g.ev("req", f=f, via="slo_soap")
+                g.ev("req", f=f, via=r.pick(["slo_soap", "aa_soap", "mni_soap", "nim_soap", "aqs_soap", "azs_soap"]))
         elif fk == "truncate":
             g.ev("req", f=f, mut={"k": "truncate", "frac": r.random()}, sub=g.sub())
         elif fk == "b64char":
